@@ -58,9 +58,9 @@ static void mode_encms(void){
     int l16,l24,lf; if(fam==3){ l16=opus_projection_encode(pe[0],s16,fs,pk[0],8000); l24=opus_projection_encode24(pe[1],s24,fs,pk[1],8000); lf=opus_projection_encode_float(pe[2],ff,fs,pk[2],8000); } else { l16=opus_multistream_encode(me[0],s16,fs,pk[0],8000); l24=opus_multistream_encode24(me[1],s24,fs,pk[1],8000); lf=opus_multistream_encode_float(me[2],ff,fs,pk[2],8000); }
     vc_count("encms_triples",1);
     int same=!(l16!=l24||l16!=lf||l16<=0||memcmp(pk[0],pk[1],l16)||memcmp(pk[0],pk[2],l16));
-    /* the property states the encoder relation for the single-stream and multistream APIs; the projection encoder mixes its input
-       with a float matrix product whose summation differs per sample format, so identity is only reported, not required */
-    if(fam==3){ vc_count(same?"projection_enc_triples_identical":"projection_enc_triples_different",1); if(!same) break; }
+    /* the projection encoder mixes its input with a matrix product before coding; the products of the three sample formats differ by exact powers of two only, so
+       the packets are identical as well (they were not before repair F27: opus_projection_encode24 ran the signal analysis on the 24-bit input read as 16-bit words) */
+    if(fam==3){ vc_count(same?"projection_enc_triples_identical":"projection_enc_triples_different",1); if(!same){ vc_viol("enc:projection-packets-differ","projection encoder, %d channels, frame %d: lengths %d/%d/%d (16-bit / 24-bit / float) or bytes differ; 16-bit vs 24-bit %s, 16-bit vs float %s (Fs=%d fs=%d)",ch,k,l16,l24,lf,(l16==l24&&l16>0&&!memcmp(pk[0],pk[1],l16))?"equal":"differ",(l16==lf&&l16>0&&!memcmp(pk[0],pk[2],l16))?"equal":"differ",Fs,fs); break; } }
     else if(!same){ vc_viol("enc:multistream-packets-differ","family %d ch %d frame %d: lengths %d/%d/%d or bytes differ (Fs=%d fs=%d)",fam,ch,k,l16,l24,lf,Fs,fs); break; }
     vc_sig3((uint64_t)fam|((uint64_t)ch<<8),(uint64_t)fidx,(uint64_t)(Fs/4000)); }
   free(f); free(ff); free(s16); free(s24); for(int i=0;i<3;i++){ if(me[i]) opus_multistream_encoder_destroy(me[i]); if(pe[i]) opus_projection_encoder_destroy(pe[i]); }
